@@ -685,6 +685,23 @@ def r_docref(i: int, r: Dict[str, Any]) -> str:
     raise KeyError(place)
 
 
+def r_serial(i: int, r: Dict[str, Any]) -> str:
+    t = ""
+    ps = r["parents"]
+    if ps != "none":
+        a = {"agreeing": "True", "contradicting": "True", "one_set": "True", "child_overrides": "True"}[ps]
+        b = {"agreeing": "True", "contradicting": "False", "one_set": None, "child_overrides": "True"}[ps]
+        t += "@abstract\n@serialization(with_model_type=%s)\nclass Ser_a_%d(DBC):\n    pass\n\n\n" % (a, i)
+        t += "@abstract\n%sclass Ser_b_%d(DBC):\n    pass\n\n\n" % (("@serialization(with_model_type=%s)\n" % b) if b else "", i)
+        t += "%sclass Ser_child_%d(Ser_a_%d, Ser_b_%d):\n    pass\n\n\n" % ("@serialization(with_model_type=False)\n" if ps == "child_overrides" else "", i, i, i)
+    u = r["untagged"]
+    if u != "none":
+        t += "%sclass Plain_%d(DBC):\n    pass\n\n\nclass Plain_child_%d(Plain_%d):\n    pass\n\n\n" % ("@abstract\n" if u == "abstract_as_property" else "", i, i, i)
+        if u in ("with_descendant_as_property", "abstract_as_property"):
+            t += "class Plain_user_%d(DBC):\n    plain: Plain_%d\n\n    def __init__(self, plain: Plain_%d) -> None:\n        self.plain = plain\n" % (i, i, i)
+    return t
+
+
 LAYOUT_LEAD = {"none": "", "space_line": "   \n", "blank_lines": "\n\n\n", "comment": "# A comment.\n\n", "tab_line": "\t\n", "formfeed_line": "\x0c\n", "spaces_comment": "    # indented comment\n", "many_space_lines": " \n" * 40}
 LAYOUT_TAIL = {
     "none": "",
@@ -778,7 +795,7 @@ def r_top(i: int, r: Dict[str, Any]) -> str:
     return TOP[r["stmt"]]
 
 
-RENDERERS = {"cprim": r_cprim, "docref": r_docref, "layout": r_layout, "constprim": r_constprim, "constset": r_constset, "patternfunc": r_patternfunc, "func": r_func, "invariant": r_invariant, "class": r_class, "enum": r_enum, "top": r_top}
+RENDERERS = {"serial": r_serial, "cprim": r_cprim, "docref": r_docref, "layout": r_layout, "constprim": r_constprim, "constset": r_constset, "patternfunc": r_patternfunc, "func": r_func, "invariant": r_invariant, "class": r_class, "enum": r_enum, "top": r_top}
 
 
 def render_item(i: int, item: Dict[str, Any]) -> str:
